@@ -19,6 +19,8 @@ type vStore struct {
 	committed map[string]diskstore.Bucket
 	ops       int  // mutating operations issued so far (in the current window)
 	failAt    int  // the failAt-th mutating operation fails (-1: never)
+	failCommit bool // the commit of a write transaction whose closure succeeded fails (while counting)
+	commitFailed bool
 	counting  bool // ops are counted / faults injected only while true
 	yieldOnOps  bool // concurrency obligations: storage operations are scheduling points
 	strict      bool // flag a use of an ended transaction's handle at the moment it happens
@@ -162,6 +164,11 @@ func (s *vStore) Write(f func(diskstore.BucketManager) error) error {
 	ended := new(bool)
 	err := f(&vBM{st: s, buckets: work, ended: ended})
 	*ended = true
+	if err == nil && s.counting && s.failCommit {
+		// the closure succeeded but the commit did not (disk full, I/O error): nothing is installed
+		s.commitFailed = true
+		return errVerifStorageFault
+	}
 	if err == nil {
 		s.committed = work
 	}
